@@ -163,3 +163,32 @@ Theorem handle_panic_swallowed_iff s :
 Proof.
   unfold handle_trace. intros -> -> ->. destruct (h_recovery s); cbn; intuition (try discriminate).
 Qed.
+
+(* the same with the integration's default error handler: dropping the user error handler's event from the
+   model's trace leaves a trace that meets the (weaker) reading used for those observations *)
+Lemma count_filter_not_errh e l : e <> WErrHandler -> count_w e (filter not_errh l) = count_w e l.
+Proof.
+  intros Hne. unfold count_w. induction l as [|x l IH]; [reflexivity|]. cbn [filter].
+  destruct x; cbn [not_errh]; cbn [filter];
+    try (destruct (wev_eqb e _); cbn [length]; rewrite IH; reflexivity).
+  (* x = WErrHandler: dropped, and e is not WErrHandler *)
+  destruct e; cbn [wev_eqb]; try exact IH. congruence.
+Qed.
+
+Theorem model_meets_default_handler_reading s : valid_scen s ->
+  holds_request_default s (filter not_errh (mw_trace s)) = true.
+Proof.
+  intros Hv. unfold holds_request_default.
+  rewrite !count_filter_not_errh by discriminate.
+  rewrite (closed_exactly_once s Hv).
+  pose proof (handler_or_error_handler s Hv) as Hh.
+  assert (Hforeign : count_w WForeignScope (mw_trace s) = 0).
+  { unfold mw_trace, valid_scen, close_evs in *. destruct (w_exit s) as [| i | | |] eqn:Ex;
+      [rewrite mws_none|rewrite (mws_some (w_nmw s) 0 i) by lia|rewrite mws_none|rewrite mws_none|reflexivity];
+      destruct (w_integ s), (w_closefails s); rewrite !count_app, count_mws_other by reflexivity; reflexivity. }
+  rewrite Hforeign.
+  destruct (w_exit s) as [| i | | |] eqn:Ex; injection Hh as H1 H2; cbn [Nat.eqb andb]; rewrite ?count_filter_not_errh by discriminate; rewrite ?H1; cbn [Nat.eqb andb]; try reflexivity.
+  - assert (Hi : i < w_nmw s) by (unfold valid_scen in Hv; rewrite Ex in Hv; exact Hv).
+    rewrite (no_middleware_after_the_failing_one s i Ex Hi). reflexivity.
+  - unfold mw_trace. rewrite Ex. reflexivity.
+Qed.
